@@ -67,16 +67,48 @@ func NewWithErr(baseFS avfs.VFS, basePath string) (*BasePathFS, error) {
 	return vfs, nil
 }
 
-// FromBasePath returns a BasePathFS path from an internal path.
-// When the base path is "/base/path", FromBasePath("/base/path/tmp") returns "/tmp".
+// FromBasePath returns the virtual path from a path of the base file system.
+// It panics if the path is not below the base path.
 func (vfs *BasePathFS) FromBasePath(path string) string {
-	if !strings.HasPrefix(path, vfs.basePath) {
+	p, ok := vfs.fromBasePath(path)
+	if !ok {
 		panic("path must start with " + vfs.basePath + " : " + path)
+	}
+
+	return p
+}
+
+// fromBasePath returns the virtual path from a path of the base file system
+// and false if the path is not the base path or below it.
+func (vfs *BasePathFS) fromBasePath(path string) (string, bool) {
+	if !strings.HasPrefix(path, vfs.basePath) {
+		return path, false
+	}
+
+	rest := path[len(vfs.basePath):]
+	if rest != "" && !vfs.IsPathSeparator(rest[0]) && !vfs.IsPathSeparator(vfs.basePath[len(vfs.basePath)-1]) {
+		// path only shares a name prefix with the base path (/base2 for /base).
+		return path, false
 	}
 
 	vl := avfs.VolumeNameLen(vfs, path)
 
-	return vfs.Join(path[:vl], path[len(vfs.basePath):], string(vfs.PathSeparator()))
+	return vfs.Join(path[:vl], rest, string(vfs.PathSeparator())), true
+}
+
+// curDir returns the current directory in the virtual namespace,
+// the root directory if the current directory of the base file system is outside the base path.
+func (vfs *BasePathFS) curDir() string {
+	dir, _ := vfs.baseFS.Getwd()
+
+	p, ok := vfs.fromBasePath(dir)
+	if !ok || dir == "" {
+		vl := avfs.VolumeNameLen(vfs, vfs.basePath)
+
+		return vfs.basePath[:vl] + string(vfs.PathSeparator())
+	}
+
+	return p
 }
 
 // FromPathError restore paths in fs.PathError if necessary.
@@ -86,7 +118,9 @@ func (vfs *BasePathFS) FromPathError(err error) error {
 		return err
 	}
 
-	return &fs.PathError{Op: e.Op, Path: vfs.FromBasePath(e.Path), Err: e.Err}
+	p, _ := vfs.fromBasePath(e.Path)
+
+	return &fs.PathError{Op: e.Op, Path: p, Err: e.Err}
 }
 
 // FromLinkError restore paths in os.LinkError if necessary.
@@ -96,23 +130,59 @@ func (vfs *BasePathFS) FromLinkError(err error) error {
 		return err
 	}
 
-	return &os.LinkError{Op: e.Op, Old: vfs.FromBasePath(e.Old), New: vfs.FromBasePath(e.New), Err: e.Err}
+	o, _ := vfs.fromBasePath(e.Old)
+	n, _ := vfs.fromBasePath(e.New)
+
+	return &os.LinkError{Op: e.Op, Old: o, New: n, Err: e.Err}
 }
 
-// ToBasePath transforms a BasePathFS path to an internal path.
-// When the base path is "/base/path", ToBasePath("/tmp") returns "/base/path/tmp".
+// pathError restores the path given by the caller in the fs.PathError
+// returned by the base file system for this path.
+func (vfs *BasePathFS) pathError(err error, name string) error {
+	e, ok := err.(*fs.PathError)
+	if !ok {
+		return err
+	}
+
+	if e.Path == vfs.ToBasePath(name) {
+		return &fs.PathError{Op: e.Op, Path: name, Err: e.Err}
+	}
+
+	return vfs.FromPathError(err)
+}
+
+// linkError restores the paths given by the caller in the os.LinkError
+// returned by the base file system for these paths.
+func (vfs *BasePathFS) linkError(err error, oldname, newname string) error {
+	e, ok := err.(*os.LinkError)
+	if !ok {
+		return err
+	}
+
+	if e.Old == vfs.ToBasePath(oldname) && e.New == vfs.ToBasePath(newname) {
+		return &os.LinkError{Op: e.Op, Old: oldname, New: newname, Err: e.Err}
+	}
+
+	return vfs.FromLinkError(err)
+}
+
+// ToBasePath transforms a path of the virtual namespace to a path of the base file system.
+// A relative path is relative to the current directory, and the path is cleaned first
+// so that no ".." element can lead above the base path.
 func (vfs *BasePathFS) ToBasePath(path string) string {
-	if path == "" || path == "/" {
+	if !vfs.IsAbs(path) {
+		path = vfs.Join(vfs.curDir(), path)
+	}
+
+	path = vfs.Clean(path)
+	vl := avfs.VolumeNameLen(vfs, path)
+
+	rest := path[vl:]
+	if len(rest) == 1 && vfs.IsPathSeparator(rest[0]) {
 		return vfs.basePath
 	}
 
-	if vfs.IsAbs(path) {
-		vl := avfs.VolumeNameLen(vfs, path)
-
-		return vfs.basePath + path[vl:]
-	}
-
-	return path
+	return vfs.basePath + rest
 }
 
 // Name returns the name of the fileSystem.
